@@ -3114,7 +3114,8 @@ class CoordEval:
         # vectors filled by exactly one push_back: the k-th element read back is the pushed expression
         self.pushed = {}
         cnt = {}
-        for n in fn.nodes():
+        # the body of a lambda expression runs where the closure is called (inlined by the normaliser), not where it is written
+        for n in walk(fn.body, prune=lambda x: x.get("k") == "Lambda"):
             if n.get("k") == "MCall" and n.get("n") in ("push_back", "emplace_back") and len(n.get("a", [])) == 1:
                 o = strip_cast(n.get("obj")) if n.get("obj") is not None else None
                 if o is not None and o.get("k") == "Ref" and o.get("dk") == "local":
@@ -3228,6 +3229,8 @@ def entry_inline_for(fn):
     def want(call, g):
         if g.name in ("write_out", "read_from", "_serialize", "_deserialize", "convert", "clone", "assign") or g.file != fn.file:
             return False
+        if not g.params and g.d.get("const"):
+            return False          # accessors (rows(), col_ind(), ...) are interpreted by the rule itself
         return (not g.cls) or g.cls == fn.cls
     return want
 
@@ -3268,8 +3271,21 @@ def check_entry_coordinates(ck, facts):
                     order[id(n)] = len(order)
             # entry lines: << chains inside loops with at least three streamed values
             chains, inner = [], set()
+            # a lambda expression's body runs where the closure is called: the normaliser has inlined it there; one it could not follow
+            # may print entry lines the analysis does not see
+            log = set(getattr(fw, "norm_log", []) or [])
+            lost = []
             for s_ in st:
                 for n in walk(s_):
+                    if n.get("k") == "Lambda" and any(y.get("k") == "OpCall" and y.get("op") == "<<" for y in walk(n.get("body"))):
+                        g_ = norm_c05._fn_index(facts).get(n.get("op_decl"))
+                        if g_ is None or ("inlined " + g_.full) not in log:
+                            lost.append(n.get("l"))
+            if lost:
+                ck.incomplete(R, "%s/%s: the lambda at line %s streams text but its call could not be followed (entry lines printed through it are not analysed)" % (sc, mode, lost[0]))
+                continue
+            for s_ in st:
+                for n in walk(s_, prune=lambda x: x.get("k") == "Lambda"):
                     if n.get("k") == "OpCall" and n.get("op") == "<<" and id(n) not in inner:
                         for y in walk(n):
                             if y is not n and y.get("k") == "OpCall" and y.get("op") == "<<":
@@ -5384,6 +5400,18 @@ def alloc_effect(facts, f, vec, depth=0):
     return ("zero", zero) if zero else "always"
 
 
+def alloc_sites(facts, f, vec):
+    """statements of f after which this->vec holds an array: push_backs to it, and calls (on this) of helpers of the same class that push
+    one on every path (alloc_effect 'always')"""
+    out = [x for x in f.nodes() if x.get("k") == "MCall" and x.get("n") == "push_back" and this_member(x.get("obj"), (vec,))]
+    for n in f.nodes():
+        if n.get("k") == "MCall" and (n.get("obj") is None or strip_cast(n["obj"]).get("k") == "This") and not n.get("cconst"):
+            g = norm_c05.callee_function(facts, n)
+            if g is not None and g is not f and g.cls == f.cls and alloc_effect(facts, g, vec, 1) == "always":
+                out.append(n)
+    return out
+
+
 def unallocated_states(facts, cls, vec):
     """constructors of cls with a path that never pushes to `vec`: -> [(ctor, {scalar slot -> 'zero'|'param'|'other'}, parameter names)].
     Slot 0 is the argument of the Container base initialiser, slot k the k-th `_scalar_index.push_back`.  A push that is preceded
@@ -5529,10 +5557,28 @@ def nullable_accessors_cached(facts, cls):
 def check_empty_containers(ck, facts):
     io_names = ("write_out", "read_from")
     seen_defs = set()
-    for f in sorted(facts.functions, key=lambda f: f.full):
-        if f.tk == "pattern" or f.name not in io_names or not re.match(r"^FEAT::LAFEM::(Dense|Sparse)", f.cls):
+    # helpers of the same class an IO routine calls on this (entry visitors, line writers): their loops are the IO routine's loops
+    io_helpers = {}
+    for f in facts.functions:
+        if f.tk == "pattern" or f.name not in io_names or not re.match(r"^FEAT::LAFEM::(Dense|Sparse)", f.cls) or len(f.params) < 2 or "stream" not in f.type(f.params[1]["t"]):
             continue
-        if len(f.params) < 2 or "stream" not in f.type(f.params[1]["t"]):
+        frontier = [f]
+        for _ in range(2):
+            nxt = []
+            for h in frontier:
+                for n in h.nodes():
+                    if n.get("k") == "MCall" and n.get("a") is not None and (n.get("obj") is None or strip_cast(n["obj"]).get("k") == "This"):
+                        g = norm_c05.callee_function(facts, n)
+                        if g is not None and g.cls == f.cls and g.file == f.file and g.name not in io_names and id(g) not in io_helpers and (g.params or not g.d.get("const")) \
+                                and g.name not in ("_serialize", "_deserialize", "convert", "clone", "assign", "clear", "move", "format"):
+                            io_helpers[id(g)] = g
+                            nxt.append(g)
+            frontier = nxt
+    for f in sorted(facts.functions, key=lambda f: f.full):
+        helper = id(f) in io_helpers
+        if f.tk == "pattern" or (f.name not in io_names and not helper) or not re.match(r"^FEAT::LAFEM::(Dense|Sparse)", f.cls):
+            continue
+        if not helper and (len(f.params) < 2 or "stream" not in f.type(f.params[1]["t"])):
             continue
         sc = strip_targs(short_cls(f.cls))    # keys are per class template: every instantiation has the same body shape
         if (f.file, f.line) in seen_defs:
@@ -5554,7 +5600,7 @@ def check_empty_containers(ck, facts):
                 continue
             vec = sr_[0]
             key = "%s/%s(%s)/%s.at(%s)" % (sc, f.name, mode_of(n), vec, sr_[1])
-            pushes = [x for x in f.nodes() if x.get("k") == "MCall" and x.get("n") == "push_back" and this_member(x.get("obj"), (vec,))]
+            pushes = alloc_sites(facts, f, vec)
             tb = cfg_block_of(f, par, n)
             x = n
             while cfg is not None and cfg.block_of(x.get("i")) is None and id(x) in par:
@@ -5567,7 +5613,7 @@ def check_empty_containers(ck, facts):
                 continue
             ok = dom or guard is not None
             ck.ob("E7.slot-guard", key, ok,
-                  ("dominated by a push_back to %s in the same routine" % vec) if dom else
+                  ("dominated by a push_back to %s in the same routine (directly or through a helper of the class that always allocates)" % vec) if dom else
                   ("only reachable on the non-empty edge of '%s'" % render(guard)) if guard is not None else
                   "this->%s.at(%s) is reached without any emptiness guard, while %s leaves %s empty and the public accessor of the same class guards exactly this access (returns nullptr)" % (
                       vec, sr_[1], short_cls(states[0].full), vec), f.file, n.get("l"))
@@ -5618,7 +5664,7 @@ def decide_nullable(ck, facts, f, par, cfg, info, uses, vec0, obj, lp, accs_used
     names = "/".join(sorted(set("%s()" % a.get("n") for _, a, _ in uses)))
     # arrays allocated by this very routine before the pointer is taken
     if obj == "this" and cfg is not None:
-        pushes = [x for x in f.nodes() if x.get("k") == "MCall" and x.get("n") == "push_back" and this_member(x.get("obj"), (vec0,))]
+        pushes = alloc_sites(facts, f, vec0)
         if pushes and all(any(cfg.stmt_dominates(p_["i"], a_["i"]) for p_ in pushes) for _, a_, _ in uses):
             return True, "%s: %s is allocated by a push_back in this routine before the pointer is taken" % (names, vec0), True
     if obj.startswith("d"):
@@ -6217,7 +6263,8 @@ def declare_rules(ck, thorough):
     ck.rule("E7.nullable-deref", "every loop of an IO routine that subscripts the pointer of an accessor which returns nullptr for unallocated arrays "
             "(row_ptr/col_ind/val/elements/indices) has trip count zero in the array-free states the constructors establish (bound resolved through constant locals, "
             "conditional expressions and the scalar slot the bound accessor reads), or is only reachable on the non-empty edge of an emptiness test, or the arrays are "
-            "allocated earlier in the same routine; breaks for: matrices without entries created by the (rows, columns) constructor, vectors of length 0", 14)
+            "allocated earlier in the same routine (helpers of the class the IO routine iterates through are analysed like the routine itself); breaks for: matrices without "
+            "entries created by the (rows, columns) constructor, vectors of length 0", 12)
     # (16 on the pinned tree; obligations are grouped per innermost loop, so hoisting an accessor value out of an inner loop merges two of them)
 
 
